@@ -6,7 +6,7 @@ from .common import viol, h, compact_case
 
 ID = 'C19'
 CLAIM = ('connection and byte accounting at the simulated peers under seeded server behaviours (cooperative, throttling from connection k, silent, closing, refusing; every moduli '
-         'policy style; several host-key lists; probe-phase faults), with and without --skip-rate-test, across RTT regimes and clock perturbations (coarse clock, forward jump) '
+         'policy style; several host-key lists; probe-phase faults), with and without --skip-rate-test, across RTT regimes and clock perturbations (coarse clock, forward and backward jumps of the wall clock) '
          'during the 1.5 s rate window: number of connections, concurrency, which connections carry key-exchange requests, sockets left open at exit, trip-wires for the DoS features')
 TRUST = ('trusted base: the connection log of the simulated network (every SYN is counted at the peer), the independent decoder that types every packet the tool sends, the virtual '
          'clock; multiprocessing.Process is a trip-wire, DHEat.run is not simulated')
@@ -15,7 +15,7 @@ LEVEL = 'exploration'
 BUDGET = {'quick': 200, 'thorough': 2400}
 NCASES = {'quick': 1200, 'thorough': 8000}
 RULE = ('cases: server profile (host-key list, kex list incl. GEX algorithms and moduli policy; a fifth of them listing one name up to 13 times), admission policy {always, throttle/silent/close/refuse/blackhole from connection k}, '
-        'rate test on/off, RTT in {0.04 ms .. 200 ms}, clock {fine, 10 ms quanta, forward jump}, optional probe-phase fault. non-trivial: >= 2 connections were opened; distinct by '
+        'rate test on/off, RTT in {0.04 ms .. 200 ms}, clock {fine, 10 ms quanta, forward jump, backward jump}, optional probe-phase fault. non-trivial: >= 2 connections were opened; distinct by '
         '(behaviour class, admission policy, RTT regime, rate test on/off, number of probe types).')
 ASSUMPTIONS = ['bound: 1 (+1 SSH-1 fallback) + one per advertised probe-able host-key type (RSA family once) + 9 per advertised GEX algorithm (+ up to 1 per host-key type again is NOT allowed) '
                '+ 38 for the rate test (at most 3 at once) when it runs', 'sockets still referenced only by in-flight simulator events are finalised before counting']
@@ -60,6 +60,9 @@ def cases(seed, tier):
             knobs['quantum_us'] = 10000
         elif clock == 'jump':
             knobs['clock_jump'] = [rng.randrange(1000, 400000), rng.choice([500000, 2000000, 40000000])]
+        if clock == 'jump' and r2.random() < 0.4:
+            knobs['clock_jump'][1] = -knobs['clock_jump'][1]      # the wall clock is stepped backwards during the audit
+            clock = 'jump_back'
         c = {'profile': p, 'skip': skip, 'adm': adm, 'clock': clock, 'knobs': knobs, 'net': {'rtt_us': rng.choice([40, 200, 1000, 8000, 60000, 200000])},
              'opts': rng.choice([['-n'], ['-j'], ['-n', '-v'], ['-n', '-P', 'Hardened OpenSSH Server v9.9 (version 1)']]), 'timeout': rng.choice([1, 2, 5]), 'pseed': rng.getrandbits(32)}
         if rng.random() < 0.3:
